@@ -8,6 +8,7 @@ import (
 	"math"
 	"math/big"
 	"os"
+	"regexp"
 	"sort"
 	"strings"
 
@@ -603,6 +604,16 @@ func (vc *VC) loopEnv(li *loopInfo, st *State, phiVal func(*ssa.Phi) Term) *Env 
 		switch phi.Comment {
 		case "rangeindex":
 			e.vars["$k"] = Term{S: sx("+", t.S, "1"), Sort: "Int", T: types.Typ[types.Int]}
+			// $n: the length the range statement iterates up to
+			for _, hin := range li.header.Instrs {
+				if bo, ok := hin.(*ssa.BinOp); ok && bo.Op == token.LSS {
+					if inc, ok := bo.X.(*ssa.BinOp); ok && inc.X == ssa.Value(phi) {
+						if nv, ok := vc.vals[bo.Y]; ok {
+							e.vars["$n"] = nv
+						}
+					}
+				}
+			}
 		case "rangeint.iter":
 			e.vars["$k"] = t
 		case "":
@@ -769,6 +780,20 @@ func (vc *VC) loopHeader(li *loopInfo, b *ssa.BasicBlock, st *State, back map[[2
 			}
 			precise := strings.HasPrefix(s, "(Array ")
 			freshOnly := strings.HasPrefix(s, "(Array Int ")
+			// index terms recorded by the discovery pass may read state variables at that pass's epochs
+			// (G_encBuf@3): they are loop-invariant when the loop does not write that variable, and are
+			// re-expressed over the state at this loop head
+			if precise {
+				nw := map[string]bool{}
+				for ix := range wr[k] {
+					nix, ok := vc.rebaseIndex(ix, wr, nst)
+					if !ok {
+						nix = ix
+					}
+					nw[nix] = true
+				}
+				wr[k] = nw
+			}
 			if os.Getenv("GOVC_DEBUG") != "" {
 				fmt.Fprintf(os.Stderr, "loop %d writes %s at %v (allocs %v)\n", li.ordinal, k, sortedKeys(wr[k]), len(vc.allocBlock))
 			}
@@ -876,6 +901,28 @@ func (vc *VC) loopHeader(li *loopInfo, b *ssa.BasicBlock, st *State, back map[[2
 		vc.assume(sx("=", n, t.S))
 	}
 	return nst
+}
+
+var epochRefRe = regexp.MustCompile(`([A-Za-z_$][A-Za-z0-9_$.]*)@[0-9]+`)
+
+// rebaseIndex rewrites references to epoch versions of state variables (name@N) in an index term
+// into the variables' terms at state st, provided the loop (write set wr) does not write them.
+func (vc *VC) rebaseIndex(ix string, wr map[string]map[string]bool, st *State) (string, bool) {
+	ok := true
+	out := epochRefRe.ReplaceAllStringFunc(ix, func(m string) string {
+		name := m[:strings.LastIndex(m, "@")]
+		if wr[name] != nil || wr["*"] != nil {
+			ok = false
+			return m
+		}
+		sortName, known := vc.stateSort[name]
+		if !known {
+			ok = false
+			return m
+		}
+		return vc.get(st, name, sortName)
+	})
+	return out, ok
 }
 
 func predIndex(b, p *ssa.BasicBlock) int {
